@@ -8,6 +8,7 @@ EXPLANATION = (
     "every access to the per-connection slabs in handle_device_payload / prepare_filter / consume uses the handler's own id, and Router::events hands its envelope id unchanged to the handlers; "
     "(R-C14-stale) every arm of Router::events that applies the envelope id to per-connection state must be dominated by an identity check that a recycled slab key cannot pass (comparison of a per-connection token carried by the event). "
     "On the pinned tree no arm has one: connection ids are slab keys that are reused immediately, so a late event of an ended link acts on the connection that now owns the key — recorded as known finding F10 per arm. "
+    "(R-C14-cache) the router-wide spare packet buffer is emptied (unbounded drain / clear) on every path between Incoming::exchange and its store back into Router.cache, so no packet of one connection is processed under another's id. "
     "Shared premises checked under C03: R-C03-handle, R-C03-align. NOT decided: exactness of a well-behaved client's stream under others' misbehaviour.")
 ASSUMPTIONS = ["rustc MIR construction is correct"]
 TECHNIQUE = "static analysis: provenance of connection ids at every per-connection access, handler-table extraction of Router::events with a required dominating identity check"
@@ -21,6 +22,59 @@ def run(ctx):
     prog = ctx.progs["rumqttd"]
     ctx.guarded("R-C14-own-id", own_id, ctx, prog)
     ctx.guarded("R-C14-stale", stale, ctx, prog)
+    ctx.guarded("R-C14-cache", recycled_buffer, ctx, prog)
+
+
+def recycled_buffer(ctx, prog):
+    """The router keeps ONE spare packet buffer (`Router.cache`) that is swapped into whichever connection's
+    incoming buffer is read next.  Whatever it still holds when it is stored back would be processed under
+    another connection's id, so every path from the exchange to the store must empty it: an unbounded
+    `VecDeque::drain(0..)`/`drain(..)` (its Drain guard removes the rest even when the loop breaks) or `clear()`."""
+    rule = "R-C14-cache"
+    writers = {}
+    for body, bi, st in field_writes(prog, "cache"):
+        if "Router" in body.local_ty(st["lhs"]["l"]) or body.id.startswith("router::routing::Router::"):
+            writers.setdefault(body.id, (body, []))[1].append((bi, st))
+    n = 0
+    for bid, (body, ws) in sorted(writers.items()):
+        if body.name == "new":
+            ctx.ok(rule, bid, "constructor initialises the spare buffer", trivial=True)
+            continue
+        ex = [bb for bb, t in body.calls() if callee_path(t).endswith("Incoming::exchange") and not body.is_cleanup(bb)]
+        empt = []
+        for bb, t in body.calls():
+            if body.is_cleanup(bb):
+                continue
+            cp = callee_path(t)
+            if cp.endswith("VecDeque::<T, A>::clear"):
+                empt.append(bb)
+            elif cp.endswith("VecDeque::<T, A>::drain"):
+                # range argument: RangeFull, or RangeFrom { start: 0 }
+                full = False
+                for s_ in flatten_src(provenance(body, t["args"][1])):
+                    if s_.kind == "agg" and s_.rv.get("adt", "").endswith("RangeFull"):
+                        full = True
+                    if s_.kind == "agg" and s_.rv.get("adt", "").endswith("RangeFrom"):
+                        k = op_const(s_.rv["ops"][0]) if s_.rv.get("ops") else None
+                        full = k is not None and k.get("v") == 0
+                    if s_.kind == "const" and s_.s and "RangeFull" in s_.s:
+                        full = True
+                if full:
+                    empt.append(bb)
+        stores = [bi for bi, st in ws if st["rv"]["k"] in ("agg", "use") and not body.is_cleanup(bi)]
+        # the Some(..) stores (None stores come from Option::take, which is a call, not a field write)
+        n += 1
+        if not ex:
+            ctx.violation(rule, bid, "spare buffer written outside the exchange protocol", "Router.cache is written in a function that does not obtain the buffer from Incoming::exchange", site=body.fn_loc())
+            continue
+        leak = reachable_after(body, ex, avoid_blocks=tuple(empt)) & set(stores)
+        if leak:
+            ctx.violation(rule, bid, "recycled buffer stored non-empty",
+                          "a path from Incoming::exchange to `self.cache = Some(packets)` never empties the buffer (no unbounded drain / clear): packets left behind by an early `break` are swapped into the next connection's incoming buffer and processed under its id",
+                          site=body.loc(ws[0][1].get("sp")))
+        else:
+            ctx.ok(rule, bid, "every path from the exchange to the store passes an unbounded drain()/clear()", site=body.loc(ws[0][1].get("sp")))
+    ctx.floor(rule, "functions storing Router.cache (besides new)", n, 1)
 
 
 def own_id(ctx, prog):
